@@ -128,3 +128,62 @@ package diff
 //@   noframe
 //@   safe
 //@   property C22
+
+// ---- validate / Apply: bounds, order and size accounting
+// ed_delta(S, E, N, o, i): the change in length caused by the first i edits of a slice whose Start, End and
+// New fields are the arrays S, E, N read from offset o: sum of len(New) - (End - Start). Defined by recursion;
+// the step is stated over two existing terms (i, j == i+1) so that instantiating it creates no new term.
+//@ spec (declare-fun ed_delta ((Array Int Int) (Array Int Int) (Array Int Str) Int Int) Int)
+//@ axiom forall S (Array Int Int), E (Array Int Int), N (Array Int Str), o Int {ed_delta(S, E, N, o, 0)} :: ed_delta(S, E, N, o, 0) == 0
+//@ axiom forall S (Array Int Int), E (Array Int Int), N (Array Int Str), o Int, i Int, j Int {ed_delta(S, E, N, o, i), ed_delta(S, E, N, o, j)} :: i >= 0 && j == i+1 ==> ed_delta(S, E, N, o, j) == ed_delta(S, E, N, o, i) + len(N[o+i]) + S[o+i] - E[o+i]
+// edits_ok(e, n): every edit lies inside a text of n bytes, and the edits are ordered and do not overlap
+//@ spec edits_ok(e []Edit, n int) bool :=
+//@      (forall i int :: 0 <= i && i < len(e) ==> 0 <= e[i].Start && e[i].Start <= e[i].End && e[i].End <= n) &&
+//@      (forall i int :: 0 <= i && i+1 < len(e) ==> e[i].End <= e[i+1].Start)
+
+//@ extern sort.IsSorted
+//@   pure
+//@   trusted
+//@ func SortEdits
+//@   modifies edits[0:len(edits)]
+//@   trusted
+//@ extern fmt.Errorf
+//@   ensures result != nil
+//@   pure
+//@   trusted
+
+// validate: on success the edits it returns are in bounds, ordered and non-overlapping (whatever the sort
+// did), and size is the length of the text the edits produce.
+//@ func validate
+//@   mode int
+//@   lenbound 31
+//@   results out, size, err
+//@   loop 0 invariant isfresh(edits) || edits == old(edits)
+//@   loop 0 invariant 0 <= lastEnd && lastEnd <= len(src) && (rangeindex >= 0 ==> lastEnd == edits[rangeindex].End)
+//@   loop 0 invariant forall i int :: 0 <= i && i <= rangeindex ==> 0 <= edits[i].Start && edits[i].Start <= edits[i].End && edits[i].End <= len(src)
+//@   loop 0 invariant forall i int :: 0 <= i && i+1 <= rangeindex ==> edits[i].End <= edits[i+1].Start
+//@   loop 0 invariant size == len(src) + ed_delta(arr(edits, Start), arr(edits, End), arr(edits, New), off(edits), rangeindex+1)
+//@   loop 0 invariant len(src) - lastEnd <= size && size <= (rangeindex+2)*(1 << 31)
+//@   ensures[fail]  err != nil ==> len(out) == 0 && size == 0
+//@   ensures[ok]    err == nil ==> edits_ok(out, len(src))
+//@   ensures[size]  err == nil ==> size == len(src) + ed_delta(arr(out, Start), arr(out, End), arr(out, New), off(out), len(out))
+//@   ensures[same]  err == nil ==> len(out) == len(edits)
+//@   ensures[nonneg] size >= 0
+//@   noframe
+//@   safe
+//@   property C22
+
+// Apply: no slice expression can be out of range, the "wrong size" panic is unreachable, and the result has
+// the size validate computed.
+//@ func Apply
+//@   mode int
+//@   lenbound 31
+//@   results text, err
+//@   loop 0 invariant 0 <= lastEnd && lastEnd <= len(src) && (rangeindex >= 0 ==> lastEnd == edits[rangeindex].End) && (rangeindex < 0 ==> lastEnd == 0)
+//@   loop 0 invariant edits_ok(edits, len(src))
+//@   loop 0 invariant len(out) == lastEnd + ed_delta(arr(edits, Start), arr(edits, End), arr(edits, New), off(edits), rangeindex+1)
+//@   loop 0 invariant size == len(src) + ed_delta(arr(edits, Start), arr(edits, End), arr(edits, New), off(edits), len(edits))
+//@   ensures[size] err == nil ==> len(text) >= 0
+//@   noframe
+//@   safe
+//@   property C22
